@@ -261,6 +261,10 @@ def gen(rng, tier):
         sc = random_history(rng, 25 if i % 4 else 6)
         if rng.random() < 0.5:
             sc = add_twin(rng, sc)
+        # a third of the random histories are run as iterations of the real main loop (Oomd::run with the scenario's adaptor
+        # installed as its drop-in service): the order updateDropIns -> prerun -> runOnce is then Oomd.cpp's own
+        if rng.random() < 0.33:
+            sc["main_loop"] = True
         yield sc
 
 
